@@ -543,11 +543,13 @@ impl Property for C10 {
             );
             return;
         }
-        let diag_lines = o2.stderr.split(|b| *b == b'\n').filter(|l| l.starts_with(b"Failed to delete")).count();
-        if diag_lines != failures {
+        // a diagnostic for every failure (whatever its wording): at least as many lines on
+        // stderr as removals failed
+        let diag_lines = o2.stderr.split(|b| *b == b'\n').filter(|l| !l.is_empty()).count();
+        if diag_lines < failures {
             rep.fail(
-                "C10.diagnostics-do-not-match-failures",
-                format!("{}: {failures} removal(s) failed, {diag_lines} diagnostic(s): {}", describe(&p2.argv), crate::sys::lossy(&o2.stderr[..o2.stderr.len().min(300)])),
+                "C10.failure-without-diagnostic",
+                format!("{}: {failures} removal(s) failed, {diag_lines} line(s) of diagnostics: {}", describe(&p2.argv), crate::sys::lossy(&o2.stderr[..o2.stderr.len().min(300)])),
             );
             return;
         }
